@@ -14,6 +14,8 @@ def sel(T):
         return [O.c14_expire]
     if T.kind == 'publish':
         return [O.c01_publish]
+    if T.kind == 'create-sub':
+        return [O.c14_create_sub]
     if T.kind in ('seek', 'create-snapshot'):
         # a seek revives with fresh *retention* (message_ttl), not the subscription's expiration ttl
         return [O.resolves_only_live] + ([O.c13_seek_time] if T.name in ('seek-to-time', 'grpc:Seek(time)') else []) + ([O.c13_seek_snapshot] if T.name in ('seek-to-snapshot', 'grpc:Seek(snapshot)') else [])
